@@ -261,6 +261,9 @@ type Path struct {
 	pendingBug   any
 	schedForks   bool
 	quiescing    bool
+	schedPoints  int // 2: go, channel operations, select and atomics are scheduling points too
+	delayBound   bool // vDelays(k): at most k deviations from the default scheduler
+	delayLeft    int
 	preemptBound bool
 	preemptLeft  int
 	yieldForks   bool
